@@ -59,7 +59,8 @@ class TokRep(Representation, RepresentationWithMutation, RepresentationWithCross
 TABLE2 = [0.0, 1.0]
 TABLE3 = [0.0, 1.0, 2.0]
 TABLE4 = [-1.0, 0.0, 1.0, 2.5]
-TABLES = {2: TABLE2, 3: TABLE3, 4: TABLE4}
+TABLE_INF = [float("-inf"), 0.0, float("inf")]  # infinitely bad / good fitness values are ordinary floats
+TABLES = {2: TABLE2, 3: TABLE3, 4: TABLE4, "inf": TABLE_INF}
 
 
 class SymFitness:
